@@ -229,7 +229,16 @@ pub fn templates(t: &mut Tape, fam: Fam) -> Vec<Vec<u8>> {
                     }
                 }
                 d.push(0);
-                for _ in 0 .. t.draw(DATA, 5) {
+                // a few cells - or exactly one row's worth by count, far less than rows x columns
+                let cells = match t.draw(DATA, 3) {
+                    0 => 255,
+                    1 => 256,
+                    _ => t.draw(DATA, 5),
+                };
+                for _ in 0 .. cells {
+                    if d.len() > 65_400 {
+                        break;
+                    }
                     cs(&mut d, "x");
                 }
                 if t.draw(DATA, 2) == 0 {
